@@ -99,6 +99,7 @@ func (c *Ctx) beWrite(st *State, x *ast.CallExpr, n int, big bool) Val {
 	vt := c.typeOf(x.Args[1])
 	v := c.asScalar(c.eval(st, x.Args[1]), vt).T
 	c.oblige(st, "bounds", "binary-write", x.Pos(), c.ile(c.idx(int64(n)), s.Len), fmt.Sprintf("binary write needs %d bytes", n))
+	c.checkWriteRange(st, c.elemPrefix(s.Elem), s.Elem, s.Ref, s.Off, c.iadd(s.Off, c.idx(int64(n))), x.Pos(), TTrue)
 	for i := 0; i < n; i++ {
 		k := n - 1 - i // byte significance for position i (big endian)
 		if !big {
